@@ -129,10 +129,16 @@ Proof.
   intros Hx Hy Hra Hrb Hb. destruct (small_mag fx a Hx Hra) as (Ha & Pa). destruct (small_mag fy b Hy Hrb) as (Hbm & Pb).
   unfold div_raw_elem.
   pose proof (n_int_width fy) as Ny.
-  assert (Hpc: precision_cast (nf (grow_truediv fx fy)) = false).
-  { unfold precision_cast, grow_truediv, mkfmt. cbn [nf]. destruct Hx as (? & ?), Hy as (? & ?). destruct (sg fy); lia. }
-  rewrite Hpc. cbn [cast_if]. fold (truediv_k fx fy). unfold truediv_floor. rewrite truediv_k_eq.
+  cbv zeta. fold (truediv_k fx fy). unfold truediv_floor. rewrite truediv_k_eq.
   set (k := nw fy - (if sg fy then 1 else 0)). assert (Hk: 0 <= k <= 26) by (unfold k; destruct Hy as (? & ?); destruct (sg fy); lia).
+  replace (0 <=? k) with true by lia.
+  rewrite raw_cast_small53 by (destruct Hx as (? & ?), Hy as (? & ?); lia). cbn [cast_if].
+  assert (Hplain: mscale_raw false (load (storage fx) a) k = mscale (load (storage fx) a) k).
+  { apply mscale_raw_plain; [lia|]. destruct Hx as (Hwx & _). rewrite storage_small by lia.
+    assert (0 < 2^k <= 2^26) by (split; [apply pow2_pos; lia | apply pow2_le; lia]).
+    assert (2^26 * 2^26 = 2^52) by reflexivity. assert (2^52 < 2^63) by (apply pow2_lt; lia).
+    destruct (sg fx) eqn:Es; cbn [load]; [nia|]. specialize (Pa eq_refl). split; nia. }
+  rewrite Hplain.
   assert (Pk: 0 < 2^k <= 2^26) by (split; [apply pow2_pos; lia | apply pow2_le; lia]).
   assert (E52: 2^26 * 2^26 = 2^52) by reflexivity. assert (E5253: 2^52 < 2^53) by (apply pow2_lt; lia).
   assert (HA: Z.abs (a * 2^k) < 2^53) by (rewrite Z.abs_mul, (Z.abs_eq (2^k)) by lia; nia).
